@@ -30,6 +30,8 @@ T = {
     "T13s": "T13 environment bounds assumed as World well-formedness: every file shorter than 2^62 bytes, fewer than 2^48 records per file, file ids below 2^62",
     "TKV": "TKV unit cmd sees the storage engine through a shim of the KeyValueStorage trait whose contract says: set / get / del that return Ok have exactly the map effect on a ghost map (prelude/cmd_prelude.rs). Unit store states the SAME contract on the real trait declaration of src/storage.rs (contracts/storage.spec, labels C01.kv.*; the ghost map is kv_map(self, World)) and PROVES it for `impl KeyValueStorage for Handle` and, below it, for Handle::{put,get,delete} (C01.handle.*), whose map is model(key directory of the Handle's Writer, files). What remains trusted: that the two statements of the trait contract (one per unit, Bytes compared by content in both) say the same thing -- a textual correspondence of three postconditions -- and TARC",
     "TSPAWN": "TSPAWN rule R-outline: the closure handed to tokio::task::spawn_blocking is moved verbatim into a method of the same impl block and runs at the call site; awaiting the handle yields its value or a JoinError. Scheduling, cancellation and panics inside the closure are not modelled",
+    "TSEM": "TSEM tokio::sync::Semaphore as ghost counters (prelude/slots_prelude.rs): acquire completes only when a permit is available and takes it in one atomic step, the permit is held by the returned guard; forget destroys the guard without giving the permit back; add_permits(n) makes n more permits available; the semaphore is never closed (nothing in src/ calls close), so acquire never fails. tokio::spawn starts the task it is given",
+    "TDROP": "TDROP Rust runs `Drop for Handler` exactly once when a connection task ends -- by returning, by an error, or while unwinding from a panic -- and never otherwise (rule R-drop reads the destructor as an ordinary method so that it can carry the ghost argument; Verus does not model implicit drops). A SemaphorePermit guard that is dropped without forget gives its permit back: the ghost model records such a guard as `held`, and the loop invariant demands held == 0",
     "TSELECT": "TSELECT rule R-select: tokio::select! { p1 = f1 => e1, p2 = f2 => e2 } is read as `match <nondeterministic> { 0 => { let p1 = f1.await; e1 } _ => { let p2 = f2.await; e2 } }`; rule R-mut-self: `mut self` becomes a local initialised from self; rule R-tryfrom-call routes Command::try_from(frame) in server.rs through a VERIFIED forwarding wrapper (work-around for a crash of this Verus build); crate::shutdown::Shutdown is a shim (is_shutdown returns a ghost flag, recv returns with the flag set)",
     "TITER": "TITER std::vec::IntoIter (command::Parser) through vstd's IteratorSpec (remaining()); `\"DEL\" == bytes` compares the bytes (bytes: impl PartialEq<Bytes> for &str); std::str::from_utf8 succeeds exactly on utf8_ok input; UTF-8 encodes ASCII text as the same bytes (axiom_ascii_bytes / axiom_string_ascii)",
     "RW": "the rewrite rules of DESIGN.md section 2.2 preserve the meaning of the extracted text (each application is logged in rewrite_rules_applied)",
@@ -75,7 +77,7 @@ PROPS = {
         ],
     },
     "C16": {
-        "units": ["net", "cmd"], "label_prefixes": ["C06.run.pairing", "C08.write.spec", "C08.write.single_spec", "C08.write.array_spec", "C06.apply.reply", "C06.get.reply", "C06.set.reply", "C06.del.reply"],
+        "units": ["net", "cmd", "slots"], "label_prefixes": ["C16.", "C06.run.pairing", "C08.write.spec", "C08.write.single_spec", "C08.write.array_spec", "C06.apply.reply", "C06.get.reply", "C06.set.reply", "C06.del.reply"],
         "level": "proof",
         "trusted": ["T1", "T2", "T3", "T4", "T4b", "T5", "T5b", "T6", "T7", "T13", "T13b", "T14", "TKV", "TSPAWN", "TSELECT", "TITER", "RW", "DERIVE"],
         "assumptions": [
@@ -137,6 +139,18 @@ PROPS = {
             "'every id the directory has EVER contained': the World records every id ever created (`ever`); top_exists(w) says the file with the largest id ever used still exists. new_active_datafile, write and merge keep / establish it (C14.ids.top_kept), every unlink inside merge is followed by a ghost checkpoint that requires it at that very point (C14.unlink.top_kept: an output with a larger id exists throughout the removals), and rebuild_storage's id is then above every id ever used (second clause of C14.open.fresh_id). Since a kill leaves the World after a prefix of the World calls, this covers 'directories left by a crash' for the id clause at the call boundaries of write and of the removal loop; the copy loop of merge only creates files (ids above everything) and is covered by C14.create.fresh",
             "crash clause for the OTHER clauses (append-only, exclusive creation) needs nothing beyond (a)-(c): they are statements about each single file-system call",
             "code that is not extracted (Bitcask::open wiring, binaries) could open files another way",
+        ],
+    },
+    "C15": {
+        "units": ["slots"], "label_prefixes": ["C15."], "level": "proof",
+        "trusted": ["T1", "T13", "TSEM", "TDROP", "RW", "DERIVE"],
+        "assumptions": [
+            "SCOPE-LIMITED to the slot ACCOUNTING. Proved on the real text of src/net/server.rs (unit slots): (1) every turn of the accept loop Listener::listen takes exactly one permit for good (acquire + forget) and then starts exactly one connection task that owns the Handler (C15.listen.one_permit_per_connection, a ghost checkpoint after tokio::spawn; the loop invariant is held == 0, avail >= 0, avail + owed == max, owed == handlers); (2) Drop for Handler gives back exactly one permit (C15.drop.returns_one_permit); (3) over the ghost counters, EVERY history of accept turns and handler ends that starts from a semaphore with max permits keeps handlers <= max and avail == max - handlers (theorem_slots, C15.limit_and_no_leak, by induction on the history): never more than max connections are served, and when all have gone all max permits are available again",
+            "the steps are atomic operations of the semaphore, so interleavings of the accept loop with ending handlers are exactly the histories theorem_slots quantifies over; no scheduler is modelled and none is needed for the counters",
+            "R-outline (pre-pass): the async block handed to tokio::spawn becomes an async method verif_conn_task(handler) of the same impl block, moved token for token; tokio::spawn receives its future. Handler::run itself is NOT re-verified here (signature only): that it never touches the semaphore is by inspection (its only use of limit_connections is the field's existence)",
+            "the only exit of listen is the abort after accept failed beyond the back-off limit: there one permit has been taken and is owned by nobody (C15.listen.abort_exit states exactly that); the server is giving up at that point",
+            "NOT covered: Server::new (creates the semaphore with conf.max_connections permits: the initial state of theorem_slots; one line, not extracted because of format! / TcpListener::bind), a task that never ends (it keeps its slot, legitimately), panics are covered only through TDROP, and max_connections == 0 (then nothing is ever served)",
+            "bounded companion on the real Server over loopback TCP (thorough tier / witness; never counted as proved): with max_connections = 2, connections that end by clean close, in the middle of a frame, after a malformed command and after a protocol error come and go; afterwards two connections must be served concurrently while a third is not served until one of them closes",
         ],
     },
     "C17": {
